@@ -46,7 +46,18 @@ KERNEL_OP.update({k: v[0] for k, v in NJIT_FIRST_USE.items()})
 
 
 def find_scenario(seed, kernel):
+    """Deterministic in (seed, kernel) alone: the racing process and the fresh reference process
+    must pick the very same scenario whatever tier-dependent generator settings are active."""
     op = KERNEL_OP[kernel]
+    saved = S.BIG_FRACTION
+    S.BIG_FRACTION = 0.0
+    try:
+        return _find_scenario(seed, kernel, op)
+    finally:
+        S.BIG_FRACTION = saved
+
+
+def _find_scenario(seed, kernel, op):
     for i in range(500):
         scn = S.gen_scenario(random.Random(f"{seed}/D/{kernel}/{i}"), ops=[op])
         if kernel in NJIT_FIRST_USE:
